@@ -799,8 +799,38 @@ def run(repo, chk):
                        expected=(cn, args), found=g)
     chk.floor("R-C17-4", 4)
 
+    # ---------------------------------------------------------------- R-C17-5 the two directions default every option alike
+    # from_si(u, to_si(u, x, p), p) must be x when the optional arguments are OMITTED too: a default that differs between the forward
+    # function and its inverse (reaction_order 1 one way, 0 the other) makes the round trip wrong by the conversion factor.
+    def defaults(fn, skip):
+        a = fn.args
+        names = [x.arg for x in a.args]
+        out = {}
+        for nm, dv in zip(names[len(names) - len(a.defaults):], a.defaults):
+            out[nm] = unparse(dv)
+        for x, dv in zip(a.kwonlyargs, a.kw_defaults):
+            if dv is not None:
+                out[x.arg] = unparse(dv)
+        for nm in names[skip:]:
+            out.setdefault(nm, "<required>")
+        return out
+    pairs = [("to_si", "from_si", repo.func(UTIL, "to_si"), repo.func(UTIL, "from_si"), 1),
+             ("HydParam._to_si", "HydParam._from_si", fns["HydParam._to_si"], fns["HydParam._from_si"], 2),
+             ("QualParam._to_si", "QualParam._from_si", fns["QualParam._to_si"], fns["QualParam._from_si"], 2)]
+    for an, bn, fa, fb, skip in pairs:
+        da, db = defaults(fa, skip), defaults(fb, skip)
+        for opt in sorted(set(da) | set(db)):
+            if opt in ("data", "param"):
+                continue
+            chk.expect(da.get(opt) == db.get(opt), "R-C17-5", "%s and %s give the option %r the same default" % (an, bn, opt), loc(fb),
+                       "with the option omitted on both sides the inverse must undo the forward conversion", expected="%s=%s (as %s)" % (opt, da.get(opt), an),
+                       found="%s=%s" % (opt, db.get(opt)))
+    chk.floor("R-C17-5", 6)
+
 
 WITNESSES = [
+    dict(name="forward-function-defaults-first-order", file=UTIL, old="        darcy_weisbach: bool = False,\n        reaction_order: int = 0,\n):\n    \"\"\"Convert an EPANET parameter from internal to SI standard units.",
+         new="        darcy_weisbach: bool = False,\n        reaction_order: int = 1,\n):\n    \"\"\"Convert an EPANET parameter from internal to SI standard units.", rule="R-C17-5"),
     dict(name="wall-coefficient-area-factor-upside-down-both-directions", file=UTIL,
          old="data = data * (mass_units.factor / 0.09290304 / 86400.0)  # M/ft2/d to SI", new="data = data * (mass_units.factor * 0.092903 / 86400.0)  # M/ft2/d to SI",
          also=[("data = data / (mass_units.factor / 0.09290304 / 86400.0)  # M/ft2/d fr SI", "data = data / (mass_units.factor * 0.092903 / 86400.0)  # M/ft2/d fr SI")], rule="R-C17-1c"),
